@@ -232,8 +232,8 @@ func joinPath(a, b string) string {
 // field's leaves live in the heap arrays of the field's own type, at a virtual
 // (negative) reference computed from the enclosing object's reference, so that a
 // pointer &x.f can be stored in the heap and dereferenced like any *FieldType.
-var addressable = map[string]int{}         // "T.f" -> ordinal
-var addressableElem = map[string]bool{}    // typeKey of field types that have virtual objects
+var addressable = map[string]int{}             // "T.f" -> ordinal
+var addressableElem = map[string]bool{}        // typeKey of field types that have virtual objects
 var addressableFieldType = map[string]string{} // "T.f" -> typeKey(field type)
 
 func vref(k int, ref string) string {
